@@ -62,7 +62,7 @@ fn gen(ch: &mut Ch, thorough: bool) -> Option<Case> {
     if via_macro && (!matches!(base, Base::Binary(..)) || !matches!(rhs, RhsTy::SameExplicit | RhsTy::Other) || generic) {
         return None;
     }
-    let self_where = ch.pick(4);
+    let self_where = ch.pick(5);
     if via_macro && self_where != 0 {
         return None;
     }
@@ -133,7 +133,9 @@ fn build(c: &Case, tier: &str) -> XCase {
     let wh = match (c.generic, c.self_where) {
         (true, 1) => " where T: ::core::default::Default, Self: ::core::marker::Sized",
         (true, 3) => " where T: ::core::default::Default, for<'b> Self: Hr<'b>",
+        (true, 4) => " where T: ::core::default::Default, Self: OnlyBase",
         (true, _) => " where T: ::core::default::Default",
+        (false, 4) => " where Self: OnlyBase",
         (false, 1) => " where Self: ::core::marker::Sized",
         (false, 3) => " where for<'b> Self: Hr<'b>",
         (false, _) => "",
@@ -145,6 +147,9 @@ fn build(c: &Case, tier: &str) -> XCase {
     let (a_c, b_c) = (format!("A{conc}"), if same { format!("A{conc}") } else if has_lt { format!("&'static B{conc}") } else { format!("B{conc}") });
     let mut s = String::new();
     s.push_str("use derive_ex::derive_ex;\nuse ::core::marker::PhantomData;\n");
+    // user items named like the identifiers an expansion might introduce: as a parameter or binding name any of them
+    // would turn into a constant pattern
+    s.push_str("#[allow(non_camel_case_types, dead_code)] pub struct rhs;\n#[allow(non_camel_case_types, dead_code)] pub struct lhs;\n#[allow(non_camel_case_types, dead_code)] pub struct this;\n#[allow(non_camel_case_types, dead_code)] pub struct other;\n#[allow(non_camel_case_types, dead_code)] pub struct source;\n#[allow(non_camel_case_types, dead_code)] pub struct value;\n#[allow(non_camel_case_types, dead_code)] pub struct o;\n#[allow(non_upper_case_globals, dead_code)] pub const result: u8 = 0;\n");
     // a user trait that happens to be called `Clone` (the generated code must name the std trait by its path)
     s.push_str("pub trait Clone { fn clone(&self) -> Self; }\n");
     for n in ["A", "B"] {
@@ -161,6 +166,17 @@ fn build(c: &Case, tier: &str) -> XCase {
         } else {
             s.push_str("pub trait Hr<'b> {}\nimpl<'b> Hr<'b> for A {}\nimpl<'b, 'x> Hr<'b> for &'x A {}\n");
         }
+    }
+    if c.self_where == 4 {
+        // holds for the base impl's own Self type ONLY: copied verbatim into a derived impl for the other form, `Self`
+        // would name a type that does not implement it
+        let base_self_is_ref = matches!(c.base, Base::Binary(true, _));
+        s.push_str(&match (base_self_is_ref, c.generic) {
+            (true, true) => "pub trait OnlyBase {}\nimpl<'x, T> OnlyBase for &'x A<T> {}\n".to_string(),
+            (true, false) => "pub trait OnlyBase {}\nimpl<'x> OnlyBase for &'x A {}\n".to_string(),
+            (false, true) => "pub trait OnlyBase {}\nimpl<T> OnlyBase for A<T> {}\n".to_string(),
+            (false, false) => "pub trait OnlyBase {}\nimpl OnlyBase for A {}\n".to_string(),
+        });
     }
     if c.self_where == 2 {
         // implemented for the base impl's own Self type only
@@ -196,9 +212,9 @@ fn build(c: &Case, tier: &str) -> XCase {
             let rt = if has_lt { format!("&'a {b_ty}") } else { format!("{}{}", if br { "&" } else { "" }, b_ty) };
             let out_ty = if !bl && c.rhs == RhsTy::SameAsSelfKw { "Self".to_string() } else { a_ty.clone() };
             if c.via_macro {
-                s.push_str(&format!("macro_rules! mk_impl {{ ($t:ty, $r:ty) => {{\n#[derive_ex({})]\nimpl{gi} ::core::ops::{tr}<$r> for $t{wh} {{\n    type Output = {out_ty};\n    fn {f}(self, rhs: $r) -> {a_ty} {{ dxrt::log(\"base\".to_string()); A(format!(\"({{}}{sym}{{}})\", self.0, rhs.0), PhantomData) }}\n}}\n}} }}\nmk_impl!({lt}, {rt});\n", list.join(", ")));
+                s.push_str(&format!("macro_rules! mk_impl {{ ($t:ty, $r:ty) => {{\n#[derive_ex({})]\nimpl{gi} ::core::ops::{tr}<$r> for $t{wh} {{\n    type Output = {out_ty};\n    fn {f}(self, r_: $r) -> {a_ty} {{ dxrt::log(\"base\".to_string()); A(format!(\"({{}}{sym}{{}})\", self.0, r_.0), PhantomData) }}\n}}\n}} }}\nmk_impl!({lt}, {rt});\n", list.join(", ")));
             } else
-            { s.push_str(&format!("impl{gi} ::core::ops::{tr}{rt_written} for {lt}{wh} {{\n    type Output = {out_ty};\n    fn {f}(self, rhs: {rt}) -> {a_ty} {{ dxrt::log(\"base\".to_string()); A(format!(\"({{}}{sym}{{}})\", self.0, rhs.0), PhantomData) }}\n}}\n")); }
+            { s.push_str(&format!("impl{gi} ::core::ops::{tr}{rt_written} for {lt}{wh} {{\n    type Output = {out_ty};\n    fn {f}(self, r_: {rt}) -> {a_ty} {{ dxrt::log(\"base\".to_string()); A(format!(\"({{}}{sym}{{}})\", self.0, r_.0), PhantomData) }}\n}}\n")); }
         }
         Base::Assign(br) => {
             let rt_written = match c.rhs {
@@ -208,7 +224,7 @@ fn build(c: &Case, tier: &str) -> XCase {
                 _ => format!("<{}{}>", if br { "&" } else { "" }, b_ty),
             };
             let rt = if has_lt { format!("&'a {b_ty}") } else { format!("{}{}", if br { "&" } else { "" }, b_ty) };
-            s.push_str(&format!("impl{gi} ::core::ops::{tra}{rt_written} for {a_ty}{wh} {{\n    fn {fa}(&mut self, rhs: {rt}) {{ dxrt::log(\"base\".to_string()); self.0 = format!(\"({{}}{sym}={{}})\", self.0, rhs.0); }}\n}}\n"));
+            s.push_str(&format!("impl{gi} ::core::ops::{tra}{rt_written} for {a_ty}{wh} {{\n    fn {fa}(&mut self, r_: {rt}) {{ dxrt::log(\"base\".to_string()); self.0 = format!(\"({{}}{sym}={{}})\", self.0, r_.0); }}\n}}\n"));
         }
     }
     s.push_str(&format!("type SA = {a_c};\ntype SB = {b_c};\n"));
@@ -300,7 +316,7 @@ fn build(c: &Case, tier: &str) -> XCase {
     atoms.insert(format!("generic={}", c.generic));
     atoms.insert(format!("self_in_where={}", c.self_where));
     atoms.insert(format!("via_macro={}", c.via_macro));
-    let desc = format!("derive_ex({}) on user impl base {:?} rhs {:?}{}", list.join(", "), c.base, c.rhs, if c.generic { " generic" } else { "" }).to_string() + if c.via_macro { " [impl generated by macro_rules!, self type and Rhs as ty fragments]" } else { "" } + ["", " where Self: Sized", " T: Rel<Self>", " where for<'b> Self: Hr<'b>"][c.self_where];
+    let desc = format!("derive_ex({}) on user impl base {:?} rhs {:?}{}", list.join(", "), c.base, c.rhs, if c.generic { " generic" } else { "" }).to_string() + if c.via_macro { " [impl generated by macro_rules!, self type and Rhs as ty fragments]" } else { "" } + ["", " where Self: Sized", " T: Rel<Self>", " where for<'b> Self: Hr<'b>", " where Self: OnlyBase (a trait of the base impl's own Self type only)"][c.self_where];
     XCase {
         text: s.clone(),
         code: s,
